@@ -1,5 +1,5 @@
 SPECIFICATION Spec
-CONSTANTS SelfNamed = FALSE Lean = TRUE DirSet = {1, 2, 3} MaxDefs = 3 Rich = FALSE Entry = "namespace" Bodies = {"ok"} AsFoundTwoObjects = FALSE AsFoundPrintPath = FALSE
+CONSTANTS SelfNamed = FALSE Lean = TRUE DirSet = {1, 2, 3} MaxDefs = 3 Rich = FALSE Entry = "namespace" Bodies = {"ok"} Dups = FALSE AsFoundTwoObjects = FALSE AsFoundPrintPath = FALSE
 INVARIANT ResolvesExactly
 INVARIANT BadReferenceFails
 INVARIANT AcyclicWhenOk
